@@ -17,31 +17,28 @@ def RefCon.usesSurface : RefCon α → Bool
   | .bin_eq_bout | .betain _ | .betaout _ => true
   | _ => false
 
+/-- `except AssertionError: raise DiffcalcException(...)` -/
+def toDce {β : Type} (m : Py β) : Py β := match m with | .error .assertion => .error .dce | x => x
+
 /-- `_calc_remaining_reference_angles`: alpha (beta is computed but not used by the callers) -/
 def remainingReference (r : RefCon α) (theta tau : α) : Py α :=
-  let toDce {β : Type} (m : Py β) : Py β := match m with | .error .assertion => .error .dce | x => x
   toDce <|
     match r with
     | .psi psi => do
       let sin_alpha := cos tau * sin theta - cos theta * sin tau * cos psi
-      let a ← bound sin_alpha
-      let alpha ← pyAsin a
+      let alpha ← boundAsin sin_alpha
       let sin_beta := cos tau * sin theta + cos theta * sin tau * cos psi
-      let b ← bound sin_beta
-      let _ ← pyAsin b
+      let _ ← boundAsin sin_beta
       pure alpha
     | .a_eq_b | .bin_eq_bout => do
-      let a ← bound (cos tau * sin theta)
-      pyAsin a
+      boundAsin (cos tau * sin theta)
     | .alpha v | .betain v => do
       let sin_beta := two * sin theta * cos tau - sin v
-      let b ← bound sin_beta
-      let _ ← pyAsin b
+      let _ ← boundAsin sin_beta
       pure v
     | .beta v | .betaout v => do
       let sin_alpha := two * sin theta * cos tau - sin v
-      let a ← bound sin_alpha
-      pyAsin a
+      boundAsin sin_alpha
 
 /-- `__get_qaz_value` -/
 def qazValue (mu eta chi phi : α) (h : V3 α) (theta : α) : α :=
@@ -90,16 +87,12 @@ def lastSampleAngle (free : Free) (mu eta chi phi : α) (h : V3 α) (theta : α)
   if isSmall A && isSmall B then .error .dce
   else do
     let ks := atan2 A B
-    let b ← bound (C / hypot A B)
-    let acos_alp ← pyAcos b
+    let acos_alp ← boundAcos (C / hypot A B)
     pure (if isSmall acos_alp then [ks] else [acos_alp + ks, -acos_alp + ks])
 
 /-- `_calc_three_sample` (the free axis' argument is ignored) -/
 def threeSample (free : Free) (mu eta chi phi : α) (h : V3 α) (theta : α) : Py (List (Sol α)) :=
-  match lastSampleAngle free mu eta chi phi h theta with
-  | .error .assertion => .ok []
-  | .error e => .error e
-  | .ok vals =>
+  tryAssert (lastSampleAngle free mu eta chi phi h theta) fun vals =>
     .ok <| vals.flatMap fun v =>
       let (mu, eta, chi, phi) := match free with
         | .mu => (v, eta, chi, phi) | .eta => (mu, v, chi, phi) | .chi => (mu, eta, v, phi) | .phi => (mu, eta, chi, v)
